@@ -16,8 +16,8 @@
   functions are parametric in it.  `RV.Props.TrafficX.traffic_is_instance` proves that the old model
   is the instance `nginxW` of this one.
 
-  API faults: every function that writes runs under a *write budget* (`none` = healthy API server,
-  `some k` = the next `k` writes succeed, every later one returns an error: `LogClient.FailAt = k`).
+  API faults: every function runs against an `Api` value: a *write budget* (`LogClient.FailAt`) and a
+  *read fault* (`LogClient.FailGetN`).
 
   Core Lean only (linked into the driver).
 -/
@@ -30,15 +30,46 @@ import RV.Model.CustomHist
 namespace RV.TrafficX
 open RV.Traffic (Exp Age Mem runGrace selOf)
 
-/-! ## write budget -/
+/-! ## API faults -/
 
 abbrev Budget := Option Nat
 
-/-- one write under the budget: `none` = the call returns an error (and writes nothing) -/
-def spend : Budget → Option Budget
-  | none => some none
+/-- health of the API server during one Manager call.
+    * `w`: write budget — `none` = every write succeeds; `some k` = the next `k` writes succeed, every later one
+      returns an error (`LogClient.FailAt = k`: the process / the API server dies after the k-th write);
+    * `r`: read fault — `some k` (k ≥ 1) = the k-th `Get` from now fails with an internal error (NOT NotFound),
+      the others succeed (`LogClient.FailGetN = k`); `none` = no `Get` fails.  Reads of ConfigMaps (Lua
+      scripts) are not counted. -/
+structure Api where
+  w : Budget := none
+  r : Budget := none
+  deriving DecidableEq, Repr
+
+/-- the healthy API server -/
+def Api.ok : Api := ⟨none, none⟩
+
+/-- one write: `none` = the call returns an error (and writes nothing) -/
+def Api.spend (a : Api) : Option Api :=
+  match a.w with
+  | none => some a
   | some 0 => none
-  | some (k + 1) => some (some k)
+  | some (k + 1) => some { a with w := some k }
+
+/-- one `Get`: (it fails with an internal error, the API afterwards) -/
+def Api.read (a : Api) : Bool × Api :=
+  match a.r with
+  | some 1 => (true, { a with r := none })
+  | some (k + 2) => (false, { a with r := some (k + 1) })
+  | _ => (false, a)
+
+/-- a read fault is armed (`some k`, k ≥ 1) -/
+def Api.armed (a : Api) : Bool :=
+  match a.r with
+  | some (_ + 1) => true
+  | _ => false
+
+/-- a read fault was armed before the call and is spent afterwards: some `Get` of the call failed -/
+def readFailed (before after : Api) : Bool := before.armed && !after.armed
 
 /-! ## providers -/
 
@@ -47,7 +78,7 @@ structure PRes (G : Type) where
   g : G                    -- provider state afterwards
   flag : Bool              -- EnsureRoutes: verified;  Finalise: modified
   err : Bool
-  b : Budget               -- budget left
+  a : Api                  -- API health afterwards
   writes : List String     -- successful API writes, in order
   panic : Bool := false    -- the Go code dereferences nil / indexes out of range
 
@@ -56,17 +87,17 @@ structure Provider (S G : Type) where
   /-- `Initialize`: `true` = an error is returned -/
   initz : G → Bool
   /-- `EnsureRoutes` -/
-  ensure : Budget → G → S → PRes G
+  ensure : Api → G → S → PRes G
   /-- `Finalise` -/
-  finalise : Budget → G → PRes G
+  finalise : Api → G → PRes G
 
 variable {S G G₁ G₂ : Type}
 
 /-- the empty `CompositeController{}`: the bodies of the three loops never run -/
 def idle : Provider S G where
   initz _ := false
-  ensure b g _ := ⟨g, true, false, b, [], false⟩
-  finalise b g := ⟨g, false, false, b, [], false⟩
+  ensure a g _ := ⟨g, true, false, a, [], false⟩
+  finalise a g := ⟨g, false, false, a, [], false⟩
 
 /-- one iteration of each loop of `CompositeController` (`p`), followed by the remaining iterations (`q`).
     * `Initialize`: the first error is returned;
@@ -76,22 +107,22 @@ def idle : Provider S G where
       not fail. -/
 def seq (p q : Provider S G) : Provider S G where
   initz g := p.initz g || q.initz g
-  ensure b g s :=
-    let r1 := p.ensure b g s
+  ensure a g s :=
+    let r1 := p.ensure a g s
     if r1.panic then r1
     else if r1.err then { r1 with flag := false }
     else
-      let r2 := q.ensure r1.b r1.g s
+      let r2 := q.ensure r1.a r1.g s
       if r2.panic then { r2 with writes := r1.writes ++ r2.writes }
-      else if r2.err then ⟨r2.g, false, true, r2.b, r1.writes ++ r2.writes, false⟩
-      else ⟨r2.g, r1.flag && r2.flag, false, r2.b, r1.writes ++ r2.writes, false⟩
-  finalise b g :=
-    let r1 := p.finalise b g
+      else if r2.err then ⟨r2.g, false, true, r2.a, r1.writes ++ r2.writes, false⟩
+      else ⟨r2.g, r1.flag && r2.flag, false, r2.a, r1.writes ++ r2.writes, false⟩
+  finalise a g :=
+    let r1 := p.finalise a g
     if r1.panic then r1
     else
-      let r2 := q.finalise r1.b r1.g
+      let r2 := q.finalise r1.a r1.g
       if r2.panic then { r2 with writes := r1.writes ++ r2.writes }
-      else ⟨r2.g, (!r1.err && r1.flag) || r2.flag, r1.err || r2.err, r2.b, r1.writes ++ r2.writes, false⟩
+      else ⟨r2.g, (!r1.err && r1.flag) || r2.flag, r1.err || r2.err, r2.a, r1.writes ++ r2.writes, false⟩
 
 /-- `network.CompositeController` -/
 def composite : List (Provider S G) → Provider S G
@@ -102,13 +133,13 @@ def composite : List (Provider S G) → Provider S G
     (the three real providers manage disjoint sets of objects of the same API server) -/
 def onFst (P : Provider S G₁) : Provider S (G₁ × G₂) where
   initz g := P.initz g.1
-  ensure b g s := let r := P.ensure b g.1 s; ⟨(r.g, g.2), r.flag, r.err, r.b, r.writes, r.panic⟩
-  finalise b g := let r := P.finalise b g.1; ⟨(r.g, g.2), r.flag, r.err, r.b, r.writes, r.panic⟩
+  ensure a g s := let r := P.ensure a g.1 s; ⟨(r.g, g.2), r.flag, r.err, r.a, r.writes, r.panic⟩
+  finalise a g := let r := P.finalise a g.1; ⟨(r.g, g.2), r.flag, r.err, r.a, r.writes, r.panic⟩
 
 def onSnd (P : Provider S G₂) : Provider S (G₁ × G₂) where
   initz g := P.initz g.2
-  ensure b g s := let r := P.ensure b g.2 s; ⟨(g.1, r.g), r.flag, r.err, r.b, r.writes, r.panic⟩
-  finalise b g := let r := P.finalise b g.2; ⟨(g.1, r.g), r.flag, r.err, r.b, r.writes, r.panic⟩
+  ensure a g s := let r := P.ensure a g.2 s; ⟨(g.1, r.g), r.flag, r.err, r.a, r.writes, r.panic⟩
+  finalise a g := let r := P.finalise a g.2; ⟨(g.1, r.g), r.flag, r.err, r.a, r.writes, r.panic⟩
 
 /-! ## the Manager -/
 
@@ -153,7 +184,7 @@ structure XOut (G : Type) where
   touched : Bool       -- c.LastUpdateTime was set to now
   recheck : Bool       -- c.RecheckDuration was raised (> 0)
   writes : List String -- successful API writes, in order
-  b : Budget           -- budget left
+  a : Api              -- API health afterwards
   panic : Bool := false
 
 /-- `GetGraceSeconds(refs, defaultSeconds)` on the list of `GracePeriodSeconds` of the refs -/
@@ -177,180 +208,192 @@ def XCtx.noGen (c : XCtx S) : Bool := c.onlyTR || c.disableGen
 def canaryServiceName (stable : String) (onlyTR disableGen : Bool) : String :=
   if onlyTR || disableGen then stable else stable ++ "-canary"
 
-def XOut.same (done err : Bool) (n : XNet G) (m : Mem) (b : Budget) : XOut G :=
-  ⟨done, err, n, m, false, false, [], b, false⟩
+def XOut.same (done err : Bool) (n : XNet G) (m : Mem) (a : Api) : XOut G :=
+  ⟨done, err, n, m, false, false, [], a, false⟩
 
-def XOut.panicked (n : XNet G) (m : Mem) (b : Budget) : XOut G :=
-  ⟨false, false, n, m, false, false, [], b, true⟩
+def XOut.panicked (n : XNet G) (m : Mem) (a : Api) : XOut G :=
+  ⟨false, false, n, m, false, false, [], a, true⟩
 
 /-- `Manager.PatchStableService` (`done` = retry) -/
-def patchStableServiceX (c : XCtx S) (b : Budget) (n : XNet G) (m : Mem) : XOut G :=
-  if ¬ c.hasRef then .same false false n m b
-  else if c.noGen then .same false false n m b
-  else if ¬ n.stableExists then .same false true n m b
+def patchStableServiceX (c : XCtx S) (a : Api) (n : XNet G) (m : Mem) : XOut G :=
+  if ¬ c.hasRef then .same false false n m a
+  else if c.noGen then .same false false n m a
   else
-    let modified := decide (n.stableSel.getD "" ≠ c.stableRev)
-    if modified then
-      match spend b with
-      | none => .same true true n m b                      -- the patch fails: `return false, err` ↦ (true, 0, err)
-      | some b1 =>
-        let (e, retry) := runGrace c.graceSec m.patchService true
-        ⟨retry, false, { n with stableSel := selOf c.stableRev }, { m with patchService := e }, true, retry,
-          ["patchStable"], b1, false⟩
+    let (rf, a) := a.read                                  -- Get stable Service
+    if rf then .same false true n m a
+    else if ¬ n.stableExists then .same false true n m a
     else
-      let (e, retry) := runGrace c.graceSec m.patchService false
-      ⟨retry, false, n, { m with patchService := e }, false, retry, [], b, false⟩
+      let modified := decide (n.stableSel.getD "" ≠ c.stableRev)
+      if modified then
+        match a.spend with
+        | none => .same true true n m a                    -- the patch fails: `return false, err` ↦ (true, 0, err)
+        | some a1 =>
+          let (e, retry) := runGrace c.graceSec m.patchService true
+          ⟨retry, false, { n with stableSel := selOf c.stableRev }, { m with patchService := e }, true, retry,
+            ["patchStable"], a1, false⟩
+      else
+        let (e, retry) := runGrace c.graceSec m.patchService false
+        ⟨retry, false, n, { m with patchService := e }, false, retry, [], a, false⟩
 
 /-- `Manager.RestoreStableService` (`done` = retry) -/
-def restoreStableServiceX (c : XCtx S) (b : Budget) (n : XNet G) (m : Mem) : XOut G :=
-  if ¬ c.hasRef then .same false false n m b
-  else if ¬ n.stableExists then .same false false n m b
+def restoreStableServiceX (c : XCtx S) (a : Api) (n : XNet G) (m : Mem) : XOut G :=
+  if ¬ c.hasRef then .same false false n m a
   else
-    -- with an empty revision-label key the selector lookup finds nothing: the Service is left as it is
-    let modified := c.hasRevKey && decide (n.stableSel.getD "" ≠ "")
-    if modified then
-      match spend b with
-      | none => .same true true n m b
-      | some b1 =>
-        let (e, retry) := runGrace c.graceSec m.restoreService true
-        ⟨retry, false, { n with stableSel := none }, { m with restoreService := e }, true, retry,
-          ["unpinStable"], b1, false⟩
+    let (rf, a) := a.read                                  -- Get stable Service
+    if rf then .same true true n m a                       -- `return true, err`
+    else if ¬ n.stableExists then .same false false n m a
     else
-      let (e, retry) := runGrace c.graceSec m.restoreService false
-      ⟨retry, false, n, { m with restoreService := e }, false, retry, [], b, false⟩
+      -- with an empty revision-label key the selector lookup finds nothing: the Service is left as it is
+      let modified := c.hasRevKey && decide (n.stableSel.getD "" ≠ "")
+      if modified then
+        match a.spend with
+        | none => .same true true n m a
+        | some a1 =>
+          let (e, retry) := runGrace c.graceSec m.restoreService true
+          ⟨retry, false, { n with stableSel := none }, { m with restoreService := e }, true, retry,
+            ["unpinStable"], a1, false⟩
+      else
+        let (e, retry) := runGrace c.graceSec m.restoreService false
+        ⟨retry, false, n, { m with restoreService := e }, false, retry, [], a, false⟩
 
 /-- `Manager.RestoreGateway` (`done` = retry); `P = none`: `newNetworkProvider` fails -/
-def restoreGatewayX (P : Option (Provider S G)) (c : XCtx S) (b : Budget) (n : XNet G) (m : Mem) : XOut G :=
-  if ¬ c.hasRef then .same false false n m b
+def restoreGatewayX (P : Option (Provider S G)) (c : XCtx S) (a : Api) (n : XNet G) (m : Mem) : XOut G :=
+  if ¬ c.hasRef then .same false false n m a
   else
     match P with
-    | none => .same false true n m b
+    | none => .same false true n m a
     | some P =>
-      let r := P.finalise b n.g
-      if r.panic then .panicked n m b
+      let r := P.finalise a n.g
+      if r.panic then .panicked n m a
       else if r.err then
-        ⟨true, true, { n with g := r.g }, m, r.flag, false, r.writes, r.b, false⟩
+        ⟨true, true, { n with g := r.g }, m, r.flag, false, r.writes, r.a, false⟩
       else
         let (e, retry) := runGrace c.graceSec m.restoreGateway r.flag
-        ⟨retry, false, { n with g := r.g }, { m with restoreGateway := e }, r.flag, retry, r.writes, r.b, false⟩
+        ⟨retry, false, { n with g := r.g }, { m with restoreGateway := e }, r.flag, retry, r.writes, r.a, false⟩
 
 /-- `Manager.RemoveCanaryService` (`done` = retry) -/
-def removeCanaryServiceX (c : XCtx S) (b : Budget) (n : XNet G) (m : Mem) : XOut G :=
-  if ¬ c.hasRef then .same false false n m b
-  else if c.noGen then .same false false n m b
+def removeCanaryServiceX (c : XCtx S) (a : Api) (n : XNet G) (m : Mem) : XOut G :=
+  if ¬ c.hasRef then .same false false n m a
+  else if c.noGen then .same false false n m a
   else
     match n.canarySvc with
     | none =>
       -- the Delete is issued all the same (it counts against the budget); NotFound ↦ `return false, nil`
-      match spend b with
-      | none => .same true true n m b
-      | some b1 =>
+      match a.spend with
+      | none => .same true true n m a
+      | some a1 =>
         let (e, retry) := runGrace c.graceSec m.removeCanaryService false
-        ⟨retry, false, n, { m with removeCanaryService := e }, false, retry, [], b1, false⟩
+        ⟨retry, false, n, { m with removeCanaryService := e }, false, retry, [], a1, false⟩
     | some _ =>
-      match spend b with
-      | none => .same true true n m b
-      | some b1 =>
+      match a.spend with
+      | none => .same true true n m a
+      | some a1 =>
         let (e, retry) := runGrace c.graceSec m.removeCanaryService true
         ⟨retry, false, { n with canarySvc := none }, { m with removeCanaryService := e }, false, retry,
-          ["deleteCanarySvc"], b1, false⟩
+          ["deleteCanarySvc"], a1, false⟩
 
 /-- `Manager.RouteAllTrafficToNewVersion` (`done` = retry) -/
-def routeAllToNewX (ops : StratOps S) (P : Option (Provider S G)) (c : XCtx S) (b : Budget) (n : XNet G) (m : Mem) :
+def routeAllToNewX (ops : StratOps S) (P : Option (Provider S G)) (c : XCtx S) (a : Api) (n : XNet G) (m : Mem) :
     XOut G :=
-  if ¬ c.hasRef then .same false false n m b
+  if ¬ c.hasRef then .same false false n m a
   else
     match P with
-    | none => .same false true n m b
+    | none => .same false true n m a
     | some P =>
-      let r := P.ensure b n.g (ops.routeAll c.strategy)
-      if r.panic then .panicked n m b
+      let r := P.ensure a n.g (ops.routeAll c.strategy)
+      if r.panic then .panicked n m a
       else if r.err then
-        ⟨true, true, { n with g := r.g }, m, !r.flag, false, r.writes, r.b, false⟩
+        ⟨true, true, { n with g := r.g }, m, !r.flag, false, r.writes, r.a, false⟩
       else
         let (e, retry) := runGrace c.graceSec m.updateRoute (!r.flag)
-        ⟨retry, false, { n with g := r.g }, { m with updateRoute := e }, !r.flag, retry, r.writes, r.b, false⟩
+        ⟨retry, false, { n with g := r.g }, { m with updateRoute := e }, !r.flag, retry, r.writes, r.a, false⟩
 
 /-- `Manager.FinalisingTrafficRouting` (`done` = done): stable Service, then provider, then canary Service -/
-def finalisingTrafficRoutingX (P : Option (Provider S G)) (c : XCtx S) (b : Budget) (n : XNet G) (m : Mem) : XOut G :=
-  if ¬ c.hasRef then ⟨true, false, n, m, false, false, [], b, false⟩
+def finalisingTrafficRoutingX (P : Option (Provider S G)) (c : XCtx S) (a : Api) (n : XNet G) (m : Mem) : XOut G :=
+  if ¬ c.hasRef then ⟨true, false, n, m, false, false, [], a, false⟩
   else
-    let r1 := restoreStableServiceX c b n m
+    let r1 := restoreStableServiceX c a n m
     if r1.err ∨ r1.done then { r1 with done := false } else
-    let r2 := restoreGatewayX P c r1.b r1.net r1.mem
+    let r2 := restoreGatewayX P c r1.a r1.net r1.mem
     if r2.panic then r2 else
     if r2.err ∨ r2.done then
-      ⟨false, r2.err, r2.net, r2.mem, r1.touched || r2.touched, r1.recheck || r2.recheck, r1.writes ++ r2.writes, r2.b, false⟩
+      ⟨false, r2.err, r2.net, r2.mem, r1.touched || r2.touched, r1.recheck || r2.recheck, r1.writes ++ r2.writes, r2.a, false⟩
     else
-    let r3 := removeCanaryServiceX c r2.b r2.net r2.mem
+    let r3 := removeCanaryServiceX c r2.a r2.net r2.mem
     if r3.err ∨ r3.done then
       ⟨false, r3.err, r3.net, r3.mem, r1.touched || r2.touched, r1.recheck || r2.recheck || r3.recheck,
-        r1.writes ++ r2.writes ++ r3.writes, r3.b, false⟩
+        r1.writes ++ r2.writes ++ r3.writes, r3.a, false⟩
     else
       ⟨true, false, r3.net, r3.mem, r1.touched || r2.touched, r1.recheck || r2.recheck || r3.recheck,
-        r1.writes ++ r2.writes ++ r3.writes, r3.b, false⟩
+        r1.writes ++ r2.writes ++ r3.writes, r3.a, false⟩
 
 /-- result of the Service part of `DoTrafficRouting` -/
 inductive SvcRes (G : Type) where
   | wait                                                   -- revisions unknown
-  | fail (n : XNet G) (ws : List String)                   -- a Service write failed
-  | ok (n : XNet G) (ws : List String) (b : Budget)
+  | fail (n : XNet G) (ws : List String) (a : Api)         -- a Service read or write failed
+  | ok (n : XNet G) (ws : List String) (a : Api)
 
 /-- the Service part of `DoTrafficRouting`: create / re-select the canary Service, pin the stable one -/
-def svcStepX (c : XCtx S) (b : Budget) (n : XNet G) : SvcRes G :=
-  if c.noGen then .ok n [] b
+def svcStepX (c : XCtx S) (a : Api) (n : XNet G) : SvcRes G :=
+  if c.noGen then .ok n [] a
   else if c.stableRev = "" ∨ c.canaryRev = "" then .wait
   else
-    -- canary Service: Get; NotFound ↦ createCanaryService; selector differs ↦ Patch
-    let r1 : Option (XNet G × List String × Budget) :=
+    let (rf, a) := a.read                                  -- Get canary Service
+    if rf then .fail n [] a
+    else
+    -- NotFound ↦ createCanaryService; selector differs ↦ Patch
+    let r1 : Option (XNet G × List String × Api) :=
       match n.canarySvc with
       | none =>
-        match spend b with
+        match a.spend with
         | none => none
-        | some b1 => some ({ n with canarySvc := some c.canaryRev }, ["createCanarySvc"], b1)
+        | some a1 => some ({ n with canarySvc := some c.canaryRev }, ["createCanarySvc"], a1)
       | some r =>
         if r ≠ c.canaryRev then
-          match spend b with
+          match a.spend with
           | none => none
-          | some b1 => some ({ n with canarySvc := some c.canaryRev }, ["patchCanarySvc"], b1)
-        else some (n, [], b)
+          | some a1 => some ({ n with canarySvc := some c.canaryRev }, ["patchCanarySvc"], a1)
+        else some (n, [], a)
     match r1 with
-    | none => .fail n []
-    | some (n1, ws1, b1) =>
+    | none => .fail n [] a
+    | some (n1, ws1, a1) =>
       if n1.stableSel.getD "" ≠ c.stableRev then
-        match spend b1 with
-        | none => .fail n1 ws1
-        | some b2 => .ok { n1 with stableSel := some c.stableRev } (ws1 ++ ["patchStable"]) b2
-      else .ok n1 ws1 b1
+        match a1.spend with
+        | none => .fail n1 ws1 a1
+        | some a2 => .ok { n1 with stableSel := some c.stableRev } (ws1 ++ ["patchStable"]) a2
+      else .ok n1 ws1 a1
 
 /-- the provider part of `DoTrafficRouting` -/
-def routeStepX (P : Option (Provider S G)) (s : S) (b : Budget) (n : XNet G) (m : Mem) : XOut G :=
+def routeStepX (P : Option (Provider S G)) (s : S) (a : Api) (n : XNet G) (m : Mem) : XOut G :=
   match P with
-  | none => .same false true n m b
+  | none => .same false true n m a
   | some P =>
-    let r := P.ensure b n.g s
-    if r.panic then .panicked n m b
-    else if r.err then ⟨false, true, { n with g := r.g }, m, false, false, r.writes, r.b, false⟩
-    else ⟨r.flag, false, { n with g := r.g }, m, false, false, r.writes, r.b, false⟩
+    let r := P.ensure a n.g s
+    if r.panic then .panicked n m a
+    else if r.err then ⟨false, true, { n with g := r.g }, m, false, false, r.writes, r.a, false⟩
+    else ⟨r.flag, false, { n with g := r.g }, m, false, false, r.writes, r.a, false⟩
 
 /-- `Manager.DoTrafficRouting` (`done` = done) -/
-def doTrafficRoutingX (ops : StratOps S) (P : Option (Provider S G)) (c : XCtx S) (b : Budget) (n : XNet G) (m : Mem) :
+def doTrafficRoutingX (ops : StratOps S) (P : Option (Provider S G)) (c : XCtx S) (a : Api) (n : XNet G) (m : Mem) :
     XOut G :=
-  if ¬ c.hasRef then .same true false n m b
+  if ¬ c.hasRef then .same true false n m a
   -- a step with neither traffic nor matches: nothing to route
-  else if ops.noTraffic c.strategy && ops.noMatches c.strategy then .same true false n m b
-  else if ¬ n.stableExists then .same false false n m b               -- NotFound: wait a moment, retry
-  else if c.lastUpdate = .fresh ∧ c.doGrace > 0 then .same false false n m b
+  else if ops.noTraffic c.strategy && ops.noMatches c.strategy then .same true false n m a
   else
-    match svcStepX c b n with
-    | .wait => .same false false n m b
-    | .fail n2 ws => ⟨false, true, n2, m, false, false, ws, some 0, false⟩
-    | .ok n2 ws b2 =>
-      -- a modified Service starts a new grace period; the provider is only touched when the Services are in place
-      if ws ≠ [] then ⟨false, false, n2, m, true, false, ws, b2, false⟩
-      else routeStepX P c.strategy b2 n2 m
+    let (rf, a) := a.read                                  -- Get stable Service
+    if rf then .same false true n m a
+    else if ¬ n.stableExists then .same false false n m a             -- NotFound: wait a moment, retry
+    else if c.lastUpdate = .fresh ∧ c.doGrace > 0 then .same false false n m a
+    else
+      match svcStepX c a n with
+      | .wait => .same false false n m a
+      | .fail n2 ws a2 => ⟨false, true, n2, m, false, false, ws, a2, false⟩
+      | .ok n2 ws a2 =>
+        -- a modified Service starts a new grace period; the provider is only touched when the Services are in place
+        if ws ≠ [] then ⟨false, false, n2, m, true, false, ws, a2, false⟩
+        else routeStepX P c.strategy a2 n2 m
 
-/-- `Manager.InitializeTrafficRouting`: `true` = an error is returned -/
+/-- `Manager.InitializeTrafficRouting`: `true` = an error is returned (no API faults modelled) -/
 def initializeX (P : Option (Provider S G)) (c : XCtx S) (n : XNet G) : Bool :=
   if ¬ c.hasRef then false
   else if ¬ n.stableExists then true
@@ -364,25 +407,25 @@ def initializeX (P : Option (Provider S G)) (c : XCtx S) (n : XNet G) : Bool :=
 /-- state: (stable Ingress exists, canary Ingress weight) -/
 def nginxW : Provider (Option Nat) (Bool × Option Nat) where
   initz g := !g.1
-  ensure b g s :=
+  ensure a g s :=
     match s with
-    | none => ⟨g, true, false, b, [], false⟩                -- never called by the Manager (step without traffic)
+    | none => ⟨g, true, false, a, [], false⟩                -- never called by the Manager (step without traffic)
     | some w =>
       let r := RV.Traffic.ensureRoutes ⟨true, none, none, g.1, g.2⟩ w
-      if r.2.2 then ⟨g, false, true, b, [], false⟩
-      else if r.1 = g.2 then ⟨g, r.2.1, false, b, [], false⟩
+      if r.2.2 then ⟨g, false, true, a, [], false⟩
+      else if r.1 = g.2 then ⟨g, r.2.1, false, a, [], false⟩
       else
-        match spend b with
-        | none => ⟨g, false, true, b, [], false⟩
-        | some b1 => ⟨(g.1, r.1), r.2.1, false, b1,
+        match a.spend with
+        | none => ⟨g, false, true, a, [], false⟩
+        | some a1 => ⟨(g.1, r.1), r.2.1, false, a1,
                        [if g.2.isNone then "createCanaryIngress" else "patchCanaryIngress"], false⟩
-  finalise b g :=
+  finalise a g :=
     match g.2 with
-    | none => ⟨g, false, false, b, [], false⟩
+    | none => ⟨g, false, false, a, [], false⟩
     | some _ =>
-      match spend b with
-      | none => ⟨g, false, true, b, [], false⟩
-      | some b1 => ⟨(g.1, none), true, false, b1, ["deleteCanaryIngress"], false⟩
+      match a.spend with
+      | none => ⟨g, false, true, a, [], false⟩
+      | some a1 => ⟨(g.1, none), true, false, a1, ["deleteCanaryIngress"], false⟩
 
 def nginxOps : StratOps (Option Nat) where
   noTraffic s := s.isNone
@@ -429,132 +472,172 @@ def cuStrategy (s : Strat) : RV.Custom.Strategy :=
     mts := s.mts.map fun u => ⟨u.path.map fun p => ⟨p.ty, p.value⟩, u.headers.map cuKV, u.queryParams.map cuKV⟩
     hdrMod := s.rhm }
 
-/-- Gateway API provider over the stored HTTPRoute (`none` = the route does not exist) -/
+/-- Gateway API provider over the stored HTTPRoute (`none` = the route does not exist).
+    Reads: `r.Get(route)`; when an update is needed, `r.Client.Get` once more inside `RetryOnConflict`. -/
 def gwProvider (c : RV.Gateway.Conf) : Provider Strat (Option (List RV.Gateway.Rule)) where
   initz st := st.isNone
-  ensure b st s :=
+  ensure a st s :=
+    let (rf, a) := a.read
+    if rf then ⟨st, false, true, a, [], false⟩ else
     let r := RV.Gateway.ensureRoutes c st (gwStep s)
-    if r.err = "panic" then ⟨st, false, false, b, [], true⟩
-    else if r.err ≠ "ok" then ⟨st, false, true, b, [], false⟩
-    else if r.ret then ⟨st, true, false, b, [], false⟩
+    if r.err = "panic" then ⟨st, false, false, a, [], true⟩
+    else if r.err ≠ "ok" then ⟨st, false, true, a, [], false⟩
+    else if r.ret then ⟨st, true, false, a, [], false⟩
     else
-      match spend b with                                  -- `r.Client.Update(routeClone)`
-      | none => ⟨st, false, true, b, [], false⟩
-      | some b1 => ⟨r.store, false, false, b1, ["updateRoute"], false⟩
-  finalise b st :=
+      let (rf2, a) := a.read
+      if rf2 then ⟨st, false, true, a, [], false⟩ else
+      match a.spend with                                  -- `r.Client.Update(routeClone)`
+      | none => ⟨st, false, true, a, [], false⟩
+      | some a1 => ⟨r.store, false, false, a1, ["updateRoute"], false⟩
+  finalise a st :=
+    let (rf, a) := a.read
+    if rf then ⟨st, false, true, a, [], false⟩ else
     let r := RV.Gateway.finalise c st
-    if r.err = "panic" then ⟨st, false, false, b, [], true⟩
-    else if r.err ≠ "ok" then ⟨st, false, true, b, [], false⟩
-    else if !r.ret then ⟨st, false, false, b, [], false⟩
+    if r.err = "panic" then ⟨st, false, false, a, [], true⟩
+    else if r.err ≠ "ok" then ⟨st, false, true, a, [], false⟩
+    else if !r.ret then ⟨st, false, false, a, [], false⟩
     else
-      match spend b with
-      | none => ⟨st, false, true, b, [], false⟩
-      | some b1 => ⟨r.store, true, false, b1, ["updateRoute"], false⟩
+      let (rf2, a) := a.read
+      if rf2 then ⟨st, false, true, a, [], false⟩ else
+      match a.spend with
+      | none => ⟨st, false, true, a, [], false⟩
+      | some a1 => ⟨r.store, true, false, a1, ["updateRoute"], false⟩
 
 def igWriteName : RV.Ingress.Write → String
   | .create _ => "createCanaryIngress"
   | .patch _ => "patchCanaryIngress"
   | .delete _ => "deleteCanaryIngress"
 
-/-- one Ingress provider call under the budget (every call issues at most one write) -/
-def igRun (b : Budget) (w : RV.Ingress.World) (o : RV.Ingress.Outcome) : PRes RV.Ingress.World :=
+/-- one Ingress provider call under the write budget (every call issues at most one write) -/
+def igRun (a : Api) (w : RV.Ingress.World) (o : RV.Ingress.Outcome) : PRes RV.Ingress.World :=
   match o with
-  | .panic => ⟨w, false, false, b, [], true⟩
+  | .panic => ⟨w, false, false, a, [], true⟩
   | .ret w' done e ws =>
-    if ws.isEmpty then ⟨w', done, e != .ok, b, [], false⟩
+    if ws.isEmpty then ⟨w', done, e != .ok, a, [], false⟩
     else
-      match spend b with
-      | none => ⟨w, false, true, b, [], false⟩
-      | some b1 => ⟨w', done, e != .ok, b1, ws.map igWriteName, false⟩
+      match a.spend with
+      | none => ⟨w, false, true, a, [], false⟩
+      | some a1 => ⟨w', done, e != .ok, a1, ws.map igWriteName, false⟩
 
-/-- canary-Ingress provider over the stable and the canary Ingress -/
+/-- canary-Ingress provider over the stable and the canary Ingress.
+    Reads: `EnsureRoutes` gets the canary Ingress and, when it is absent and the weight is not 0, the stable
+    Ingress; `Finalise` gets the canary Ingress. -/
 def igProvider (cfg : RV.Ingress.Cfg) : Provider Strat RV.Ingress.World where
   initz w := w.stable.isNone
-  ensure b w s := igRun b w (RV.Ingress.ensureRoutes cfg w (igStrategy s))
-  finalise b w := igRun b w (RV.Ingress.finalise cfg w)
+  ensure a w s :=
+    let (rf, a) := a.read
+    if rf then ⟨w, false, true, a, [], false⟩ else
+    let needStable := w.canary.isNone && s.weight != some 0
+    let (rf2, a) := if needStable then a.read else (false, a)
+    if rf2 then ⟨w, false, true, a, [], false⟩ else
+    igRun a w (RV.Ingress.ensureRoutes cfg w (igStrategy s))
+  finalise a w :=
+    let (rf, a) := a.read
+    if rf then ⟨w, false, true, a, [], false⟩ else
+    igRun a w (RV.Ingress.finalise cfg w)
 
-/-! ### the custom provider: `EnsureRoutes` / `Finalise` with the budget left and the write log
-    (`RV.Custom.ensureRoutesF` / `finaliseF` give the objects and the result under a budget;
-    `RV.Props.TrafficX.cuEnsure_eq` / `cuFinalise_eq` prove that these are the same functions) -/
+/-! ### the custom provider: `EnsureRoutes` / `Finalise` with the API health and the write log
+    (`RV.Custom.ensureRoutesF` / `finaliseF` give the objects and the result under a write budget;
+    `RV.Props.TrafficX.cuEnsure_eq` / `cuFinalise_eq` prove that, without a read fault, these are the same
+    functions) -/
+
+open RV.Custom in
+/-- EnsureRoutes, first loop: `Get` every referenced object; `none` = a `Get` failed (read fault, or NotFound) -/
+def cuGetLoop : Api → List Ref → Option (List (Option Script × Obj)) × Api
+  | a, [] => (some [], a)
+  | a, r :: rs =>
+    let (rf, a1) := a.read
+    if rf then (none, a1)
+    else
+      match r.obj with
+      | none => (none, a1)
+      | some o =>
+        let t := cuGetLoop a1 rs
+        (t.1.map fun l => (r.script, o) :: l, t.2)
 
 open RV.Custom in
 /-- EnsureRoutes, second loop (`storeObject` per ref without the annotation) -/
-def cuStoreLoop (c : Codec) : Budget → List (Option Script × Obj) →
-    List (Option Script × Obj) × Option Budget × List String
-  | b, [] => ([], some b, [])
-  | b, p :: r =>
+def cuStoreLoop (c : Codec) : Api → List (Option Script × Obj) →
+    List (Option Script × Obj) × Option Api × List String
+  | a, [] => ([], some a, [])
+  | a, p :: r =>
     if (storeIfAbsentW c p.2).2 then
-      match spend b with
+      match a.spend with
       | none => (p :: r, none, [])
-      | some b1 =>
-        let t := cuStoreLoop c b1 r
+      | some a1 =>
+        let t := cuStoreLoop c a1 r
         ((p.1, (storeIfAbsentW c p.2).1) :: t.1, t.2.1, "updateCustom" :: t.2.2)
     else
-      let t := cuStoreLoop c b r
+      let t := cuStoreLoop c a r
       ((p.1, (storeIfAbsentW c p.2).1) :: t.1, t.2.1, t.2.2)
 
 open RV.Custom in
-/-- EnsureRoutes, fourth loop (`compareAndUpdateObject` per ref); result: refs, `some (done, budget)` or
+/-- EnsureRoutes, fourth loop (`compareAndUpdateObject` per ref); result: refs, `some (done, api)` or
     `none` when an `Update` failed, writes -/
-def cuApplyLoop : Budget → List Data → List (Option Script × Obj) → List Ref × Option (Bool × Budget) × List String
-  | b, d :: ds, p :: r =>
+def cuApplyLoop : Api → List Data → List (Option Script × Obj) → List Ref × Option (Bool × Api) × List String
+  | a, d :: ds, p :: r =>
     if (compareAndUpdate d p.2).2 then
-      match spend b with
+      match a.spend with
       | none => ((p :: r).map refOf, none, [])
-      | some b1 =>
-        let t := cuApplyLoop b1 ds r
+      | some a1 =>
+        let t := cuApplyLoop a1 ds r
         (⟨p.1, some (compareAndUpdate d p.2).1⟩ :: t.1, t.2.1.map (fun x => (false, x.2)), "updateCustom" :: t.2.2)
     else
-      let t := cuApplyLoop b ds r
+      let t := cuApplyLoop a ds r
       (⟨p.1, some (compareAndUpdate d p.2).1⟩ :: t.1, t.2.1, t.2.2)
-  | b, _, _ => ([], some (true, b), [])
+  | a, _, _ => ([], some (true, a), [])
 
 open RV.Custom in
 /-- `customController.EnsureRoutes` -/
-def cuEnsure (c : Codec) (b : Budget) (st : List Ref) (s : Strategy) : PRes (List Ref) :=
-  match getAll st with
-  | none => ⟨st, false, true, b, [], false⟩
+def cuEnsure (c : Codec) (a : Api) (st : List Ref) (s : Strategy) : PRes (List Ref) :=
+  let g := cuGetLoop a st
+  match g.1 with
+  | none => ⟨st, false, true, g.2, [], false⟩
   | some objs =>
-    let t := cuStoreLoop c b objs
+    let t := cuStoreLoop c g.2 objs
     match t.2.1 with
-    | none => ⟨t.1.map refOf, false, true, some 0, t.2.2, false⟩
-    | some b1 =>
+    | none => ⟨t.1.map refOf, false, true, { g.2 with w := some 0 }, t.2.2, false⟩
+    | some a1 =>
       match planAll c s t.1 with
-      | none => ⟨t.1.map refOf, false, true, b1, t.2.2, false⟩
+      | none => ⟨t.1.map refOf, false, true, a1, t.2.2, false⟩
       | some ds =>
-        let u := cuApplyLoop b1 ds t.1
+        let u := cuApplyLoop a1 ds t.1
         match u.2.1 with
-        | none => ⟨u.1, false, true, some 0, t.2.2 ++ u.2.2, false⟩
-        | some (done, b2) => ⟨u.1, done, false, b2, t.2.2 ++ u.2.2, false⟩
+        | none => ⟨u.1, false, true, { a1 with w := some 0 }, t.2.2 ++ u.2.2, false⟩
+        | some (done, a2) => ⟨u.1, done, false, a2, t.2.2 ++ u.2.2, false⟩
 
 open RV.Custom in
-/-- the loop of `customController.Finalise`: refs, modified, "some Update failed", budget, writes -/
-def cuFinaliseLoop (c : Codec) : Budget → List Ref → List Ref × Bool × Bool × Budget × List String
-  | b, [] => ([], false, false, b, [])
-  | b, r :: rs =>
+/-- the loop of `customController.Finalise`: refs, modified, "some Get / Update failed", api, writes.
+    A failed `Get` (not NotFound) and a failed restore are recorded in `errList`; the loop goes on. -/
+def cuFinaliseLoop (c : Codec) : Api → List Ref → List Ref × Bool × Bool × Api × List String
+  | a, [] => ([], false, false, a, [])
+  | a, r :: rs =>
+    let (rf, a0) := a.read
+    if rf then let t := cuFinaliseLoop c a0 rs; (r :: t.1, t.2.1, true, t.2.2.2)
+    else
     match r.obj with
-    | none => let t := cuFinaliseLoop c b rs; (r :: t.1, t.2)
+    | none => let t := cuFinaliseLoop c a0 rs; (r :: t.1, t.2)
     | some o =>
       if (restoreObject c o).2 then
-        match spend b with
-        | none => let t := cuFinaliseLoop c b rs; (r :: t.1, t.2.1, true, t.2.2.2)
-        | some b1 =>
-          let t := cuFinaliseLoop c b1 rs
+        match a0.spend with
+        | none => let t := cuFinaliseLoop c a0 rs; (r :: t.1, t.2.1, true, t.2.2.2)
+        | some a1 =>
+          let t := cuFinaliseLoop c a1 rs
           ({ r with obj := some (restoreObject c o).1 } :: t.1, true, t.2.2.1, t.2.2.2.1, "updateCustom" :: t.2.2.2.2)
-      else let t := cuFinaliseLoop c b rs; ({ r with obj := some (restoreObject c o).1 } :: t.1, t.2)
+      else let t := cuFinaliseLoop c a0 rs; ({ r with obj := some (restoreObject c o).1 } :: t.1, t.2)
 
 open RV.Custom in
 /-- `customController.Finalise` -/
-def cuFinalise (c : Codec) (b : Budget) (st : List Ref) : PRes (List Ref) :=
-  let t := cuFinaliseLoop c b st
+def cuFinalise (c : Codec) (a : Api) (st : List Ref) : PRes (List Ref) :=
+  let t := cuFinaliseLoop c a st
   ⟨t.1, t.2.1, t.2.2.1, t.2.2.2.1, t.2.2.2.2, false⟩
 
 /-- custom (Lua) provider over the referenced objects (each with its script) -/
 def cuProvider (c : RV.Custom.Codec) : Provider Strat (List RV.Custom.Ref) where
   -- `Initialize`: every object exists and has a script
   initz st := st.any fun r => r.obj.isNone || r.script.isNone
-  ensure b st s := cuEnsure c b st (cuStrategy s)
-  finalise b st := cuFinalise c b st
+  ensure a st s := cuEnsure c a st (cuStrategy s)
+  finalise a st := cuFinalise c a st
 
 /-! ## `newNetworkProvider` over the three real providers -/
 
